@@ -6,9 +6,23 @@ import re, sys
 src, lemma, props, new, docf = sys.argv[1:6]
 extra = sys.argv[6] if len(sys.argv) > 6 else ""
 s = open(src).read()
-m = re.search(r"^theorem (?:_root_\.RosedVerif\.)?" + re.escape(lemma) + r"\b(.*?):=\s*(?:by\b)?", s, flags=re.S | re.M)
-assert m, "lemma not found"
-sig = m.group(1).rstrip()
+m0 = re.search(r"^theorem (?:_root_\.RosedVerif\.)?" + re.escape(lemma) + r"\b", s, flags=re.M)
+assert m0, "lemma not found"
+rest = s[m0.end():]
+# the signature ends at the first `:=` at bracket depth 0 that is not a `let … :=` binding
+depth = 0; end = None; k = 0
+while k < len(rest):
+    c = rest[k]
+    if c in "([{⟨": depth += 1
+    elif c in ")]}⟩": depth -= 1
+    elif rest.startswith(":=", k) and depth == 0:
+        line = rest[rest.rfind("\n", 0, k) + 1:k]
+        if not re.search(r"\blet\b[^;]*$", line):
+            end = k; break
+        k += 1
+    k += 1
+assert end is not None
+sig = rest[:end].rstrip()
 # split binders from statement: walk brackets
 i = 0; depth = 0; binders = []; start = None
 while i < len(sig):
